@@ -248,7 +248,10 @@ func VH_C15_GroupRun(firstJoin, event int) {
 	cfg := ConsumerGroupConfig{ID: "g", Brokers: []string{"vh:9092"}, Topics: []string{"t"}, HeartbeatInterval: time.Second,
 		JoinGroupBackoff: 5 * time.Second, StartOffset: FirstOffset}
 	opened := 0
-	cfg.connect = func(*Dialer, ...string) (coordinator, error) { opened++; return co, nil }
+	cfg.connect = func(_ *Dialer, brokers ...string) (coordinator, error) {
+		opened++
+		return &vhCoordConn{vhCoordinator: co, addr: brokers[0]}, nil
+	}
 	if firstJoin >= 4 {
 		// the first coordinator lookup fails (4: error code, 5: transport error): reported by Next, retried after
 		// the back-off, and the bootstrap connection is closed all the same
@@ -410,5 +413,8 @@ func VH_C15_GroupRun(firstJoin, event int) {
 	}
 	vhSettle()
 	vhAssert(opened == co.closes, "every-coordinator-connection-opened-is-closed-once-the-group-is-closed")
+	for _, a := range co.groupAddrs {
+		vhAssert(a == "leaveGroup@"+vhCoordinatorAddr || a == "joinGroup@"+vhCoordinatorAddr || a == "heartbeat@"+vhCoordinatorAddr, "group-requests-go-to-the-coordinator-found-with-FindCoordinator")
+	}
 	vhReach("c15-group-run")
 }
